@@ -504,7 +504,7 @@ fn apply(w: &mut OW, sink: &mut Sink, a: &A) -> bool {
         A::DropW(k) => { if !weaks.contains(k) { return false; } w.drop_weak(sink, *k) }
         A::CloneW(k) => { if !weaks.contains(k) || weaks.len() >= 3 { return false; } w.clone_weak(sink, *k) }
         A::Into => { if !w.is_unique() { return false; } w.into_shared(sink) }
-        A::Counts => { let Some(h) = h0 else { return false }; w.counts(sink, h) }
+        A::Counts => { if owners.is_empty() { return false; } for h in owners.iter().copied() { w.counts(sink, h); } }   // through EVERY live handle: they must all agree
         A::HGet => { let Some(h) = h0 else { return false }; w.owner_get(sink, h) }
     }
     true
@@ -536,7 +536,7 @@ fn run_case_init(sink: &mut Sink, id: &str, unique: bool, asyncf: bool, seq: &[A
     for a in seq { apply(&mut w, sink, a); }
     // closing checks: every subscriber is polled twice, counts are read, then everything is dropped
     for i in w.live_subs() { w.poll(sink, i); w.poll(sink, i); w.get(sink, i); }
-    if let Some(h) = w.live_owners().first().copied() { w.counts(sink, h); }
+    for h in w.live_owners() { w.counts(sink, h); }
     for h in w.live_owners() { w.owner_drop(sink, h); }
     for i in w.live_subs() { w.poll(sink, i); w.poll(sink, i); w.get(sink, i); }
     for k in w.live_weaks() { w.upgrade(sink, k); }
